@@ -140,7 +140,11 @@ unsigned i_mep::mutation(double pgm, const problem &prb)
   unsigned n(0);
 
   const auto i_size(size());
-  const auto patch(i_size - prb.env.mep.patch_length);
+  // `prb` is the *current* problem: an individual built under a different
+  // environment can be shorter than the current patch length (then it consists
+  // of patch rows only and the unsigned subtraction must not wrap around).
+  const auto patch(i_size > prb.env.mep.patch_length
+                   ? i_size - prb.env.mep.patch_length : 0);
 
   for (auto i(begin()); i != end(); ++i)  // here mutation affects only exons
     if (random::boolean(pgm))
